@@ -40,3 +40,11 @@ claim('C24', 'other',
       'static analysis: three-valued guard analysis of the attempt limit (None / 0 / n>0), validation paths, shape of every yielded delay, '
       'dataflow "counter advances once per loop iteration", StopIteration handling of the reconnection handler; not the numeric jitter band',
       'three-valued guard domain + CFG dataflow + path enumeration', _TB, 'DESIGN.md section 5 C24')
+
+claim('C04', 'other',
+      'static analysis: every response decoder abstractly interpreted for all protocol versions and metadata flag combinations, its read sequence '
+      '(primitive, order, role) compared with the specification; opcode / error-code / type-code registries; error info keys vs exception '
+      'constructors; frame-flag prologue order. Decides layouts, not contents',
+      'abstract interpretation of decoder ASTs over enumerated flag/version domain + specification and registry comparison',
+      _TB + '; /verif/spec/native_protocol.py ERROR_CODES/ROWS_FLAGS/TYPE_CODES written from the protocol specifications v1-v5',
+      'DESIGN.md section 5 C04')
